@@ -39,7 +39,11 @@ func LoadEngine(repo string) (*Engine, error) {
 	t0 := time.Now()
 	cfg := &packages.Config{Mode: packages.LoadAllSyntax, Dir: repo, BuildFlags: []string{"-tags=verif"},
 		Env: append(os.Environ(), "GOFLAGS=-mod=mod", "GOPROXY=off", "GOSUMDB=off", "GOTOOLCHAIN=local")}
-	pkgs, err := packages.Load(cfg, ".", "./ds/...")
+	patterns := []string{".", "./ds/..."}
+	if p := os.Getenv("GOVC_PATTERNS"); p != "" {
+		patterns = strings.Fields(p)
+	}
+	pkgs, err := packages.Load(cfg, patterns...)
 	if err != nil {
 		return nil, err
 	}
